@@ -57,6 +57,9 @@ func (c *Module) Connect(conn *sqlite.Conn, args []string,
 
 	err = declare(table.SchemaString)
 	if err != nil {
+		// s3db.New has registered the table; a definition that SQLite
+		// rejects must not leave it behind (the name would stay taken)
+		_ = table.Disconnect()
 		return nil, fmt.Errorf("declare: %w", err)
 	}
 
